@@ -1,5 +1,7 @@
 /- Helper lemmas for `LA.Unicode` (property C18). -/
 import LA.Model.Unicode
+set_option linter.unusedSimpArgs false
+set_option linter.unusedVariables false
 namespace LA.Unicode
 open LA.Gen.Utf8Table
 
@@ -1267,5 +1269,251 @@ theorem utf8ToUtf8Loop_spec :
             · exact .inr h
             · exact .inl h
           · exact .inr h
+
+/-- Well-formed UTF-8 is copied verbatim and no failure is reported. -/
+theorem utf8ToUtf8Loop_encSeq (cs : List Nat) (hcs : ∀ c ∈ cs, Carries .utf8 c) (rest out : List Nat) (ret : Int) :
+    utf8ToUtf8Loop (encSeq .utf8 cs ++ rest) (encSeq .utf8 cs).length out ret = .ok ret (out ++ encSeq .utf8 cs) := by
+  induction cs generalizing out with
+  | nil =>
+    rw [utf8ToUtf8Loop]
+    simp [encSeq, utf8ToUnicode, utf8Raw]
+  | cons c cs ih =>
+    have hc := hcs c (by simp)
+    have hx : encSeq .utf8 (c :: cs) = unicodeToUtf8 4 c ++ encSeq .utf8 cs := by simp [encSeq, unparse]
+    have hpos : 0 < (unicodeToUtf8 4 c).length := by
+      have := unparse4_ne_nil .utf8 c
+      simp only [unparse] at this
+      cases h : unicodeToUtf8 4 c with
+      | nil => exact absurd h this
+      | cons _ _ => simp
+    rw [utf8ToUtf8Loop, hx, List.append_assoc]
+    have hp := utf8ToUnicode_encode c (hc.2 rfl) hc.1 (encSeq .utf8 cs ++ rest)
+      (unicodeToUtf8 4 c ++ encSeq .utf8 cs).length (by simp)
+    rw [hp]
+    simp only []
+    have hne : ((unicodeToUtf8 4 c).length : Int) ≠ 0 := by omega
+    have hp0 : (0 : Int) < ((unicodeToUtf8 4 c).length : Int) := by omega
+    have hk : ((unicodeToUtf8 4 c).length : Int).toNat ≤ (unicodeToUtf8 4 c ++ encSeq .utf8 cs).length ∧
+        0 < ((unicodeToUtf8 4 c).length : Int).toNat := by
+      simp only [Int.toNat_natCast, List.length_append]; omega
+    rw [if_neg hne, if_pos hp0, dif_pos hk]
+    simp only [Int.toNat_natCast]
+    have hd : (unicodeToUtf8 4 c ++ (encSeq .utf8 cs ++ rest)).drop (unicodeToUtf8 4 c).length
+        = encSeq .utf8 cs ++ rest := by simp
+    have ht : (unicodeToUtf8 4 c ++ (encSeq .utf8 cs ++ rest)).take (unicodeToUtf8 4 c).length
+        = unicodeToUtf8 4 c := by simp
+    have hl : (unicodeToUtf8 4 c ++ encSeq .utf8 cs).length - (unicodeToUtf8 4 c).length
+        = (encSeq .utf8 cs).length := by simp
+    rw [hd, ht, hl, ih (fun c' h' => hcs c' (by simp [h']))]
+    simp
+
+/-! ### a conversion that reports no failure preserves the name -/
+
+/-- How one scalar value may be written in the source: its regular encoding or, in UTF-8 only,
+as a CESU-8 pair of 3-byte surrogates (`pair = true`). -/
+def srcItem (fe : Enc) (c : Nat) (pair : Bool) : List Nat :=
+  if fe = .utf8 ∧ pair = true then unicodeToUtf8 4 (hiSur c) ++ unicodeToUtf8 4 (loSur c) else unparse fe 4 c
+
+theorem parse_canonical (fe : Enc) (xs : List Nat) (n : Nat) (r : Int) (uc : Option Nat)
+    (hb : fe ≠ .utf8 → ∀ b ∈ xs, b < 256)
+    (h : parse fe xs n = .ret r uc) (hr : 0 < r) :
+    ∃ c pair, uc = some c ∧ Carries fe c ∧ (pair = true → fe = .utf8 ∧ 0x10000 ≤ c) ∧
+      xs.take r.toNat = srcItem fe c pair ∧ r.toNat = (srcItem fe c pair).length ∧ r.toNat ≤ n := by
+  cases fe with
+  | utf8 =>
+    obtain ⟨c, hc, hp, hs, hn, hcase⟩ := cesu8_canonical xs n r uc h hr
+    rcases hcase with ⟨ht, hl⟩ | ⟨h6, hsup, ht⟩
+    · exact ⟨c, false, hc, ⟨hs, fun _ => hp⟩, by simp, by simpa [srcItem, unparse] using ht,
+        by simpa [srcItem, unparse] using hl, hn⟩
+    · have hsc := (isScalar_iff c).1 hs
+      have hh : 0xD800 ≤ hiSur c ∧ hiSur c ≤ 0xDBFF := by unfold hiSur; omega
+      have hl : 0xDC00 ≤ loSur c ∧ loSur c ≤ 0xDFFF := by unfold loSur; omega
+      have l1 := enc8_len3 (hiSur c) (by omega) (by omega)
+      have l2 := enc8_len3 (loSur c) (by omega) (by omega)
+      subst h6
+      refine ⟨c, true, hc, ⟨hs, fun _ => hp⟩, fun _ => ⟨rfl, hsup⟩, ?_, ?_, hn⟩
+      · simpa [srcItem] using ht
+      · simp [srcItem, l1, l2]
+  | utf16be =>
+    obtain ⟨c, hc, hs, ht, hl, hn⟩ := utf16_canonical true xs n r uc (hb (by simp)) h hr
+    exact ⟨c, false, hc, ⟨hs, fun h => by simp at h⟩, by simp, by simpa [srcItem, unparse] using ht,
+      by simpa [srcItem, unparse] using hl, hn⟩
+  | utf16le =>
+    obtain ⟨c, hc, hs, ht, hl, hn⟩ := utf16_canonical false xs n r uc (hb (by simp)) h hr
+    exact ⟨c, false, hc, ⟨hs, fun h => by simp at h⟩, by simp, by simpa [srcItem, unparse] using ht,
+      by simpa [srcItem, unparse] using hl, hn⟩
+
+theorem parse_zero (fe : Enc) (xs : List Nat) (n : Nat) (r : Int) (uc : Option Nat)
+    (h : parse fe xs n = .ret r uc) (hr : r = 0) : n = 0 ∨ (fe = .utf8 ∧ xs[0]? = some 0) := by
+  cases fe
+  · rcases (cesu8_zero xs n r uc h).1 hr with h | h
+    · exact .inl h
+    · exact .inr ⟨rfl, h⟩
+  · exact .inl ((utf16_zero true xs n r uc h).1 hr)
+  · exact .inl ((utf16_zero false xs n r uc h).1 hr)
+
+/-- Once a replacement happened the result stays -1. -/
+theorem transcode_ret_neg (fe te : Enc) :
+    ∀ (len : Nat) (xs acc : List Nat) (r : Int) (out : List Nat),
+      transcode fe te xs len acc (-1) = .ok r out → r = -1 := by
+  intro len
+  induction len using Nat.strongRecOn with
+  | ind len ih =>
+    intro xs acc r out h
+    rw [transcode] at h
+    cases hp : parse fe xs len with
+    | oob => simp [hp] at h
+    | ret n uc =>
+      simp only [hp] at h
+      by_cases hn : n = 0
+      · simp only [hn, if_true, Conv.ok.injEq] at h; exact h.1.symm
+      · rw [if_neg hn] at h
+        split at h
+        · rename_i hk
+          have : (if n < 0 then (-1 : Int) else -1) = -1 := by split <;> rfl
+          rw [this] at h
+          exact ih (len - n.natAbs) (by omega) _ _ _ _ h
+        · simp at h
+
+/-- If `transcode` reports no failure (return value 0), the bytes it consumed are a sequence of
+scalar values in the source encoding (CESU-8 pairs allowed in UTF-8), it consumed the source up
+to its end, and what it produced is the encoding of the same sequence in the target encoding. -/
+theorem transcode_sound (fe te : Enc) :
+    ∀ (len : Nat) (xs acc out : List Nat), (fe ≠ .utf8 → ∀ b ∈ xs, b < 256) → len ≤ xs.length →
+      transcode fe te xs len acc 0 = .ok 0 out →
+      ∃ items : List (Nat × Bool),
+        (∀ it ∈ items, Carries fe it.1 ∧ (it.2 = true → fe = .utf8 ∧ 0x10000 ≤ it.1)) ∧
+        (items.flatMap (fun it => srcItem fe it.1 it.2)).length ≤ len ∧
+        xs.take (items.flatMap (fun it => srcItem fe it.1 it.2)).length = items.flatMap (fun it => srcItem fe it.1 it.2) ∧
+        ((items.flatMap (fun it => srcItem fe it.1 it.2)).length = len ∨
+          (fe = .utf8 ∧ xs[(items.flatMap (fun it => srcItem fe it.1 it.2)).length]? = some 0)) ∧
+        out = acc ++ encSeq te (items.map (·.1)) := by
+  intro len
+  induction len using Nat.strongRecOn with
+  | ind len ih =>
+    intro xs acc out hb hlen h
+    rw [transcode] at h
+    cases hp : parse fe xs len with
+    | oob => simp [hp] at h
+    | ret n uc =>
+      simp only [hp] at h
+      by_cases hn : n = 0
+      · simp only [hn, if_true, Conv.ok.injEq, true_and] at h
+        refine ⟨[], by simp, by simp, by simp, ?_, by simp [encSeq, h]⟩
+        rcases parse_zero fe xs len n uc hp hn with h0 | h0
+        · exact .inl (by simp [h0])
+        · exact .inr (by simpa using h0)
+      · rw [if_neg hn] at h
+        split at h
+        case isFalse => simp at h
+        rename_i hk
+        by_cases hneg : n < 0
+        · simp only [hneg, if_true] at h
+          have := transcode_ret_neg fe te _ _ _ _ _ h
+          omega
+        simp only [hneg, if_false] at h
+        have hpos : 0 < n := by omega
+        obtain ⟨c, pair, hc, hcar, hpr, htake, hl, hnle⟩ := parse_canonical fe xs len n uc hb hp hpos
+        subst hc
+        have hkn : n.natAbs = n.toNat := by omega
+        rw [hkn] at h hk
+        simp only [Option.getD_some] at h
+        obtain ⟨items, hit, hlen', htk, hend, hout⟩ := ih (len - n.toNat) (by omega) (xs.drop n.toNat) _ out
+          (fun hne b hb' => hb hne b (List.mem_of_mem_drop hb')) (by simp; omega) h
+        refine ⟨(c, pair) :: items, ?_, ?_, ?_, ?_, ?_⟩
+        · intro it hmem
+          simp at hmem
+          rcases hmem with h1 | h1
+          · subst h1; exact ⟨hcar, hpr⟩
+          · exact hit it h1
+        · simp only [List.flatMap_cons, List.length_append]; omega
+        · simp only [List.flatMap_cons, List.length_append]
+          rw [← hl, List.take_add, htake, htk]
+        · simp only [List.flatMap_cons, List.length_append]
+          rcases hend with he | he
+          · left; omega
+          · right
+            refine ⟨he.1, ?_⟩
+            have := he.2
+            rw [List.getElem?_drop] at this
+            rw [← hl]; exact this
+        · rw [hout]; simp [encSeq]
+
+/-! ### `best_effort_strncat_to_utf16` / `_from_utf16`: stores stay inside the buffer -/
+
+theorem bestEffortToUtf16_go_spec (be : Bool) :
+    ∀ (remaining : Nat) (xs : List Nat) (as : AStr) (ret : Int),
+      remaining ≤ xs.length → as.data.length + 2 * (remaining + 1) ≤ as.cap →
+      ∃ r as', bestEffortToUtf16.go be xs remaining as ret = .ok r as' ∧
+        as'.data.length = as.data.length + 2 * remaining ∧ as'.cap = as.cap := by
+  intro remaining
+  induction remaining with
+  | zero =>
+    intro xs as ret _ hc
+    refine ⟨ret, as, ?_, by simp, rfl⟩
+    have : ¬ as.cap ≤ as.data.length + 1 := by omega
+    simp [bestEffortToUtf16.go, this]
+  | succ r ih =>
+    intro xs as ret hl hc
+    have h0 : xs[0]? = some (xs[0]'(by omega)) := List.getElem?_eq_getElem _
+    have hnc : ¬ as.cap < as.data.length + 2 := by omega
+    rw [bestEffortToUtf16.go, h0]
+    simp only [hnc, if_false]
+    obtain ⟨r', as', he, hd, hcap⟩ := ih (xs.drop 1)
+      { as with data := as.data ++ enc16 be ((if xs[0]'(by omega) > 127 then (unicodeRChar, (-1 : Int)) else (xs[0]'(by omega), ret)).1 % 65536) }
+      (if xs[0]'(by omega) > 127 then (unicodeRChar, (-1 : Int)) else (xs[0]'(by omega), ret)).2
+      (by simp; omega) (by simp [enc16_len]; omega)
+    refine ⟨r', as', ?_, ?_, hcap⟩
+    · rw [← he]
+    · rw [hd]; simp [enc16_len]; omega
+
+/-- `best_effort_strncat_to_utf16`: every store (two per source byte and the two NULs) is below
+`buffer_length`. -/
+theorem bestEffortToUtf16_in_bounds (be : Bool) (as : AStr) (xs : List Nat) (length : Nat) (hl : length ≤ xs.length) :
+    ∃ r as', bestEffortToUtf16 be as xs length = .ok r as' ∧
+      as'.data.length = as.data.length + 2 * length ∧ as'.data.length + 2 ≤ as'.cap := by
+  unfold bestEffortToUtf16
+  have hc := ensure_cap_ge as (as.data.length + (length + 1) * 2)
+  obtain ⟨r, as', he, hd, hcap⟩ := bestEffortToUtf16_go_spec be length xs
+    (ensure as (as.data.length + (length + 1) * 2)) 0 hl (by rw [ensure_data]; omega)
+  rw [ensure_data] at hd
+  exact ⟨r, as', he, hd, by rw [hcap, hd]; omega⟩
+
+theorem bestEffortFromUtf16Loop_spec (be : Bool) :
+    ∀ (bytes : Nat) (xs : List Nat) (as : AStr) (ret : Int),
+      bytes ≤ xs.length → as.data.length + bytes + 1 ≤ as.cap →
+      ∃ r as', bestEffortFromUtf16Loop be xs bytes as ret = .ok r as' ∧ as'.data.length + 1 ≤ as'.cap := by
+  intro bytes
+  induction bytes using Nat.strongRecOn with
+  | ind bytes ih =>
+    intro xs as ret hl hc
+    rw [bestEffortFromUtf16Loop]
+    cases hp : utf16ToUnicode be xs bytes with
+    | oob => exact absurd hp (utf16_no_oob be xs bytes hl)
+    | ret n uc =>
+      simp only []
+      by_cases hn : n = 0
+      · have : ¬ as.cap ≤ as.data.length := by omega
+        simp only [hn, if_true, this, if_false]
+        exact ⟨ret, as, rfl, by omega⟩
+      · have hk := utf16_progress be xs bytes n uc hp hn
+        have hk' : n.natAbs ≤ bytes ∧ 0 < n.natAbs := ⟨hk.2, by omega⟩
+        have hnc : ¬ as.cap ≤ as.data.length := by omega
+        rw [if_neg hn, dif_pos hk']
+        simp only [hnc, if_false]
+        obtain ⟨r', as', he, hd⟩ := ih (bytes - n.natAbs) (by omega) (xs.drop n.natAbs)
+          { as with data := as.data ++ [(if uc.getD 0 > 127 then (63, (-1 : Int)) else (uc.getD 0, if n < 0 then -1 else ret)).1] }
+          (if uc.getD 0 > 127 then (63, (-1 : Int)) else (uc.getD 0, if n < 0 then -1 else ret)).2
+          (by simp; omega) (by simp; omega)
+        refine ⟨r', as', ?_, hd⟩
+        rw [← he]
+
+/-- `best_effort_strncat_from_utf16`: every store (one per code unit consumed and the NUL) is
+below `buffer_length`. -/
+theorem bestEffortFromUtf16_in_bounds (be : Bool) (as : AStr) (xs : List Nat) (bytes : Nat) (hl : bytes ≤ xs.length) :
+    ∃ r as', bestEffortFromUtf16 be as xs bytes = .ok r as' ∧ as'.data.length + 1 ≤ as'.cap := by
+  unfold bestEffortFromUtf16
+  have hc := ensure_cap_ge as (as.data.length + bytes + 1)
+  exact bestEffortFromUtf16Loop_spec be bytes xs _ 0 hl (by rw [ensure_data]; omega)
 
 end LA.Unicode
